@@ -744,9 +744,34 @@ def _schedule_rewrites(
     return scheduled_rewrites
 
 
+def _reanchor_insertion(rewrite: _Rewrite, original_source: str, source: str) -> _Rewrite:
+    """A statement that is inserted at (line, column) relies on the indentation of that line
+    being in front of it. That indentation is not there if the line is shorter than the column
+    (an empty line), or if it has been removed: rewrites are applied last to first, so that the
+    text in front of a rewrite is still what its range was computed on, but removing a statement
+    that is alone on its line removes the whole line, including its indentation. The statement
+    would end up somewhere in the next line. Insert it as a line of its own instead."""
+    old, new = rewrite
+    col_offset = getattr(new, "col_offset", 0)
+    if (
+        isinstance(old, core.Range)
+        and old.start == old.end
+        and isinstance(new, ast.stmt)
+        and 0 < col_offset <= old.start
+        and not original_source[old.start - col_offset : old.start].replace("\n", "").strip(" ")
+        and source[old.start - col_offset : old.start].strip(" ")
+    ):
+        start = old.start - col_offset
+        new_code = textwrap.indent(core.unparse(new).rstrip() + "\n", " " * col_offset)
+        return _Rewrite(core.Range(start, start), new_code)
+
+    return rewrite
+
+
 def _apply_rewrites(source: str, rewrites: Sequence[Tuple[Any, Callable]]) -> str:
     original_source = new_source = source
     for transaction, (_, rewrite) in rewrites:
+        rewrite = _reanchor_insertion(rewrite, original_source, new_source)
         new_source = _do_rewrite(new_source, rewrite, fix_function_name=transaction.group_name)
 
     if not core.is_valid_python(new_source):
